@@ -78,6 +78,7 @@ class Pool():
 
     def add_worker(self, worker_type, name=None, userid=None, target=None, args=None, kwargs=None, **worker_kwargs):
         worker = None
+        registered = False
         with self._workers_lock:
             if name is None:
                 name = '{} worker {}'.format(self._name, self._next_worker_id)
@@ -108,13 +109,15 @@ class Pool():
                     raise ValueError(f'Duplicated worker id: {worker.id}')
                 self._workers[worker.id] = worker
                 self._queues[worker.id] = queue.parent_end
+                registered = True
 
             self.handle_new_worker(worker)
         except:
             if worker:
-                with self._workers_lock:
-                    self._workers.pop(worker.id, None)
-                    self._queues.pop(worker.id, None)
+                if registered: # otherwise the entries under this id (if any) belong to another worker
+                    with self._workers_lock:
+                        self._workers.pop(worker.id, None)
+                        self._queues.pop(worker.id, None)
 
                 worker.terminate()
             raise
